@@ -572,6 +572,14 @@ func (t *Task) IsWaiting() bool {
 	return t.state == stWaiting
 }
 
+// Runnable reports whether the task is at a gate and could be released (parked, or waiting for a mutex):
+// it is neither inside a blocking operation nor finished. Meant to be asked by the running task.
+func (t *Task) Runnable() bool {
+	t.s.mu.Lock()
+	defer t.s.mu.Unlock()
+	return !t.dead && (t.state == stParked || t.state == stLockWait)
+}
+
 // Sim returns the task's simulation.
 func (t *Task) Sim() *Sim { return t.s }
 
@@ -967,6 +975,9 @@ func (s *Sim) Run(main func()) {
 				wait = nextT.Sub(now)
 			}
 			s.Idles++
+			if s.cfg.TraceSteps {
+				s.logBuf = append(s.logBuf, fmt.Sprintf("%6d %8.3fs   idle: clock runs for at most %v (live %d)", s.Steps, s.Now().Seconds(), wait, live))
+			}
 			lockRetries = 0
 			sinceIdle = 0
 			idAtWindow = s.nextID
@@ -998,6 +1009,9 @@ func (s *Sim) Run(main func()) {
 			sinceIdle = 0
 			idAtWindow = s.nextID
 			s.ForcedAdvances++
+			if s.cfg.TraceSteps {
+				s.logBuf = append(s.logBuf, fmt.Sprintf("%6d %8.3fs   forced advance by %v (no idle instant for %d steps)", s.Steps, s.Now().Seconds(), quantum, spinSteps))
+			}
 			time.Sleep(quantum)
 			if quantum < 5*time.Second {
 				quantum *= 2
@@ -1025,6 +1039,9 @@ func (s *Sim) Run(main func()) {
 				}
 				s.skipped += time.Since(t0)
 				s.TimeSkips++
+				if s.cfg.TraceSteps {
+					s.logBuf = append(s.logBuf, fmt.Sprintf("%6d %8.3fs   time skip of %v (asked %v) with %d runnable", s.Steps, s.Now().Seconds(), time.Since(t0), d, len(cs)))
+				}
 				s.mix(uint64(time.Since(t0)))
 				s.Count("fault.time_passes_while_tasks_are_runnable")
 				continue
